@@ -305,8 +305,8 @@ def check(pid, tier, seed):
         # the source declares a message the model does not cover: send it (fields filled by type, any sender) to the
         # real contract in implementation-led histories under the monitors
         sprofile = dict(profile)
-        sprofile["weights"] = dict(spec["weights"], unknown=60, breaker=6, resume=6)
-        s4, _, f4 = run_parallel(200 if quick else 2000, seed + 77, sprofile, length, builds[0], "impl", workers)
+        sprofile["weights"] = dict(spec["weights"], unknown=14, breaker=3, resume=3)
+        s4, _, f4 = run_parallel(480 if quick else 4000, seed + 77, sprofile, length + 80, builds[0], "impl", 8 if quick else workers)
         all_stats.merge(s4)
         for f in f4:
             if f["property"] == pid and match_known(f, known) is None:
